@@ -125,7 +125,7 @@ def _handle_list(eng, vv, i, nz, mark):
     return HandleList(vv.cls, fixed, scal, vecs, nz)
 
 
-def _handles_of(v):
+def _symbolic_handles_of(v):
     """the HandleList behind a value (a list, an iterator over it, or a list-subclass instance), else None"""
     while isinstance(v, Iter):
         if v.consumed:
@@ -134,6 +134,89 @@ def _handles_of(v):
     if isinstance(v, Obj) and isinstance(v.fields.get("__items__"), HandleList):
         return v.fields["__items__"]
     return v if isinstance(v, HandleList) else None
+
+
+class NoHandles(HandleList):
+    """Field-wise reading of the EMPTY concrete list: there is no element, so it is a list of instances of any class sharing
+    any field values (`cls_` is None, see `is_list_of`); its length is 0 and its field columns are never read below it."""
+
+    def __init__(self):
+        super().__init__(None, {}, {}, {}, z3.IntVal(0))
+
+    def col(self, name):
+        return z3.K(z3.IntSort(), z3.IntVal(0))
+
+    def vec(self, name, j):
+        return z3.K(z3.IntSort(), z3.IntVal(0))
+
+
+def _pick(values, kind):
+    """the z3 array k -> values[k] (k < len(values)) of a concrete, non-empty list of scalars"""
+    i = z3.Int(fresh_name("ci"))
+    z = to_z3(values[-1], kind)
+    for j in range(len(values) - 2, -1, -1):
+        z = z3.If(i == j, to_z3(values[j], kind), z)
+    return z3.Lambda([i], z)
+
+
+def _view_of_concrete(lst):
+    """A CONCRETE-length list of instances read field-wise, exactly as `_handle_list` stores a symbolic-length one: what the list
+    IS (which objects, in which order, with which field values) does not depend on whether it was produced by a comprehension over
+    a symbolic sequence, by a loop, or written out.  None when the elements are not instances of one class with one field layout."""
+    items = lst.items
+    if not items:
+        return NoHandles()
+    e0 = items[0]
+    if not all(isinstance(e, Obj) and e.cls is e0.cls and list(e.fields) == list(e0.fields) for e in items):
+        return None
+    fixed, scal, vecs = {}, {}, {}
+    for nm, v0 in e0.fields.items():
+        vals = [e.fields[nm] for e in items]
+        if all(isinstance(x, Sym) or kind_of(x) is not None for x in vals):
+            kinds = {x.kind if isinstance(x, Sym) else kind_of(x) for x in vals}
+            k = kinds.pop() if len(kinds) == 1 else ("real" if kinds <= {"int", "real"} else None)
+            if k is None:
+                return None
+            scal[nm] = (_pick(vals, k), k)
+        elif all(isinstance(x, NArr) and x.view_of is None and x.shape == v0.shape and x.kind == v0.kind for x in vals):
+            vecs[nm] = (v0.shape, v0.kind, v0.dtype, [_pick([x.items[q] for x in vals], v0.kind) for q in range(len(v0.items))])
+        elif all(x is v0 for x in vals) or (not isinstance(v0, (Obj, SArr, NArr, PList, PDict)) and all(type(x) is type(v0) and x == v0 for x in vals)):
+            fixed[nm] = v0
+        else:
+            return None
+    return HandleList(e0.cls, fixed, scal, vecs, z3.IntVal(len(items)))
+
+
+def _handles_of(v):
+    """CLAUSE-side reading of a list of view objects (a list, an iterator over it, or a list-subclass instance): the HandleList of a
+    symbolic-length list, or the same field-wise reading of a concrete-length list of instances (`_view_of_concrete`); else None"""
+    h = _symbolic_handles_of(v)
+    if h is not None:
+        return h
+    while isinstance(v, Iter):
+        if v.consumed:
+            return None
+        v = v.seq
+    if isinstance(v, Obj) and isinstance(v.fields.get("__items__"), PList):
+        v = v.fields["__items__"]
+    if type(v) is PList and v.items is not None and not v.tup:
+        return _view_of_concrete(v)
+    return None
+
+
+def is_list_of(h, cls, **shared):
+    """every element of the list read by `_handles_of` is an instance of `cls` whose fields `shared` hold the given objects (by
+    identity); vacuously so for the empty list"""
+    if h is None:
+        return False
+    if isinstance(h, NoHandles):
+        return True
+    return h.cls_ is cls and all(h.fixed.get(k) is val for k, val in shared.items())
+
+
+def has_vec(h, name, shape):
+    """field `name` of every element is an array of the concrete shape `shape` (vacuous for the empty list)"""
+    return isinstance(h, NoHandles) or (h is not None and name in h.vecs and h.vecs[name][0] == tuple(shape))
 
 
 class ModelsProxy:
@@ -146,7 +229,15 @@ class ModelsProxy:
     def comprehension(self, eng, n, fr, kind):
         gens = n.generators
         if kind in ("list", "gen") and len(gens) == 1 and not gens[0].ifs:
-            first = eng.ev(gens[0].iter, fr)
+            return self.comprehension_over(eng, n, fr, kind, eng.ev(gens[0].iter, fr))
+        return models.comprehension(eng, n, fr, kind)
+
+    def comprehension_over(self, eng, n, fr, kind, first):
+        """the comprehension `n` with its first iterable already evaluated to `first`: also what the loop idiom
+        `for x in S: L.append(e(x))` is executed as (pyvc.loops._append_loop), so a list of view objects built by an explicit loop
+        is stored exactly like the one built by the comprehension"""
+        gens = n.generators
+        if kind in ("list", "gen") and len(gens) == 1 and not gens[0].ifs:
             probe = first.seq if isinstance(first, Iter) and not first.consumed else first
             if isinstance(probe, Obj) and isinstance(probe.fields.get("__items__"), HandleList):
                 probe = probe.fields["__items__"]
@@ -170,7 +261,7 @@ class ModelsProxy:
                     first.consumed = True
                 return r
             return _concrete_comprehension(eng, n, fr, kind, first)
-        return models.comprehension(eng, n, fr, kind)
+        return models.comprehension_over(eng, n, fr, kind, first)
 
     def as_sequence(self, eng, v):
         if isinstance(v, SymStepRange):
@@ -182,7 +273,7 @@ class ModelsProxy:
 
     def foreign_init(self, eng, obj, pyf, args, kwargs):
         if isinstance(obj.cls, type) and issubclass(obj.cls, list) and args:
-            h = _handles_of(args[0])
+            h = _symbolic_handles_of(args[0])
             if h is not None:
                 if isinstance(args[0], Iter):
                     args[0].consumed = True
@@ -195,7 +286,7 @@ class ModelsProxy:
 
         def model(eng, recv, args, kwargs):
             if name == "__init__" and isinstance(recv, Obj) and isinstance(recv.cls, type) and issubclass(recv.cls, list) and args:
-                h = _handles_of(args[0])
+                h = _symbolic_handles_of(args[0])
                 if h is not None:
                     if isinstance(args[0], Iter):
                         args[0].consumed = True
@@ -227,6 +318,32 @@ def _concrete_comprehension(eng, n, fr, kind, first):
         eng.assign(gens[0].target, x, sub)
         out.append(eng.ev(n.elt, sub))
     return PList(out) if kind == "list" else Iter(PList(out))
+
+
+def _l_extend(eng, recv, args, kwargs):
+    """`L.extend(S)` with L an EMPTY concrete list and S a symbolic-length list of view objects (what `L = []` followed by
+    `for x in seq: L.append(Cls(...))` is executed as): L becomes that list - same object, same elements, same order."""
+    if type(recv) is PList and recv.items is not None and args:
+        h = _symbolic_handles_of(args[0])
+        if h is not None:
+            if recv.items:
+                raise Unsupported("extend of a non-empty concrete list by a symbolic-length list of view objects")
+            models.check_frame(eng, recv)
+            if isinstance(args[0], Iter):
+                args[0].consumed = True
+            keep = dict(uid=recv.uid, frozen=recv.frozen)
+            recv.__class__ = HandleList
+            recv.__dict__.update(HandleList(h.cls_, h.fixed, h.scal, h.vecs, h.n).__dict__)
+            recv.__dict__.update(keep)
+            return None
+    for (cls, nm), mdl in models.EXTRA_METHODS.items():  # not ours: whatever model would have been found without this one
+        if nm == "extend" and mdl is not _l_extend and isinstance(recv, cls):
+            return mdl(eng, recv, args, kwargs)
+    return models._m_extend(eng, recv, args, kwargs)
+
+
+models.EXTRA_METHODS[(PList, "extend")] = _l_extend
+ModelsProxy.LIST_METHODS = property(lambda self: dict(models.LIST_METHODS, extend=_l_extend))
 
 
 MODELS = ModelsProxy()
